@@ -21,6 +21,20 @@ from props.C04 import (TOL, PHI0, C0, H_KEYS, E_KEYS, RT, hexes, cflat, theory_c
                        point_data, points_tokens, par_tokens, pw_tokens, map_exc, j2x_scale, compare, sdiv)
 
 
+def evolved_wc(th, attr, Q2, pc):
+    """the evolved Wilson coefficients [pw, j, flavour] of process class pc at Q2, for the SCALE of a comparison only: the
+    object's per-Q2 memo (attributes wce / wce_dvmp — implementation details, not part of any property) when it is there,
+    otherwise computed afresh by the public routine.  A renamed memo attribute must not crash the harness."""
+    from gepard import wilson
+    memo = getattr(th, attr, None)
+    try:
+        if isinstance(memo, dict) and Q2 in memo and getattr(memo[Q2], 'ndim', 0) == 3:
+            return memo[Q2]
+    except TypeError:
+        pass
+    return wilson.calc_wce(th, Q2, pc)
+
+
 # the x-space singlet and gluon are built from the singlet and gluon moments only (the harness's own
 # matrix: the code's frot_j2x / frot_pdf attributes are part of what is being checked)
 FROT_X = [[1, 0, 0, 0], [0, 1, 0, 0], [0, 0, 0, 0]]
@@ -57,7 +71,7 @@ def run(rep):
 
     def cff_scales(th, xi, Q2, h, e, pwH, pwE):
         """sums of absolute values of the terms of _mellin_barnes_integral_HE: (ReH, ImH, ReE, ImE)"""
-        wce = np.abs(th.wce[Q2]) if Q2 in th.wce else np.abs(wilson.calc_wce(th, Q2, 'DVCS'))
+        wce = np.abs(evolved_wc(th, 'wce', Q2, 'DVCS'))
         cf = np.abs(np.exp((th.jpoints + 1) * math.log(1 / xi)))
         aH = np.einsum('j,sa,sja,ja->j', cf, np.abs(pwH), wce, np.abs(h))
         aE = np.einsum('j,sa,sja,ja->j', cf, np.abs(pwE), wce, np.abs(e))
@@ -164,7 +178,7 @@ def run(rep):
                 sc = []
             else:
                 pre = constants.CF * constants.F_rho0 * 2 * math.pi * asq / constants.NC / math.sqrt(Q2)
-                wce = np.abs(th.wce_dvmp[Q2])
+                wce = np.abs(evolved_wc(th, 'wce_dvmp', Q2, 'DVMP'))
                 cf = np.abs(np.exp((th.jpoints + 1) * math.log(1 / xi)))
                 a = np.einsum('j,sa,sja,ja->j', cf, np.abs(pwH), wce, np.abs(hm))
                 sc = [pre * np.dot(th.wg, a * np.abs(th.tgj)), pre * np.dot(th.wg, a)]
@@ -245,8 +259,10 @@ def run(rep):
         S = cff_scales(th, xi, Q2, h, e, pwH, pwE)
         dH = abs(cf[1] - math.pi * qs * hx[0])
         dE = abs(cf[3] - math.pi * qs * ex[0])
-        track('handbag |ImH - π q_s Hx|/|ImH|', sdiv(dH, abs(cf[1])))
-        track('handbag |ImE - π q_s Ex|/Σ|terms|', sdiv(dE, S[3]))
+        if cf[1] != 0:
+            track('handbag |ImH - π q_s Hx|/|ImH|', dH / abs(cf[1]))
+        if S[3] != 0:                      # E switched off altogether (all its terms are 0): nothing to normalise by
+            track('handbag |ImE - π q_s Ex|/Σ|terms|', dE / S[3])
         rep.case('oracle.handbag', (scheme, nf, xi, t, Q2, phi, c),
                  sample=dict(theory=kw, point=point, ImH=float(cf[1]), pi_qs_Hx=float(math.pi * qs * hx[0]), ImE=float(cf[3]),
                              pi_qs_Ex=float(math.pi * qs * ex[0])))
@@ -260,14 +276,14 @@ def run(rep):
     # tolerance: |v(phi, c) − v(default)| ≤ CREL·|v| + CS·(sum of |terms| of the two contour sums); see assumptions
     CREL, CS = 2e-3, 1e-4
     ncont = 20 if quick else 250
-    n_slow = 1 if quick else 5
+    n_slow = 3 if quick else 9            # msbar NLO: 1.5 s per CFF evaluation (non-diagonal evolution): a few cases per run,
+    slow_at = {3 + k_ * ((ncont - 4) // n_slow) for k_ in range(n_slow)}      # the first at fixed kinematics, the others random
     for i in range(ncont):
         p, scheme = combos[i % 4] if i < 4 else rng.choice(combos[:3])
-        if (p, scheme) == (1, 'msbar'):
-            if n_slow <= 0:
-                p, scheme = 1, 'csbar'
-            n_slow -= 1
+        if i in slow_at:
+            p, scheme = 1, 'msbar'
         slow = (p, scheme) == (1, 'msbar')
+        rep.hist('contour.theory', 'p=%d/%s' % (p, scheme))
         par = random_pars(rng)
         xi = 10 ** rng.uniform(-4, math.log10(0.3))
         t = rng.uniform(-1, 0)
@@ -281,6 +297,12 @@ def run(rep):
                        al0s=1.13, al0g=1.03, Eal0s=1.21, Eal0g=1.06)
             variants.append((2.1, C0))
             variants.append((1.85, C0))          # fixed: well away from the default contour, below the region of the finding
+        elif slow:
+            # msbar NLO at random kinematics and parameters: one angle below the region of the recorded finding (phi <= 1.9),
+            # and in every other case one anywhere in the property's range
+            variants.append((rng.uniform(1.65, 1.9), C0))
+            if i % 2 == 0:
+                variants.append((rng.uniform(math.pi / 2, 2.1), C0))
         else:
             variants.append((rng.uniform(math.pi / 2, 2.1), C0))
         if not slow:
@@ -308,7 +330,7 @@ def run(rep):
                 asq_ = g.qcd.as2pf(th.p, th.nf, Q2, th.asp[th.p], th.r20)
                 pre = constants.CF * constants.F_rho0 * 2 * math.pi * asq_ / constants.NC / math.sqrt(Q2)
                 cfj = np.abs(np.exp((th.jpoints + 1) * math.log(1 / xi)))
-                a = np.einsum('j,sa,sja,ja->j', cfj, np.abs(pwH), np.abs(th.wce_dvmp[Q2]), np.abs(hm))
+                a = np.einsum('j,sa,sja,ja->j', cfj, np.abs(pwH), np.abs(evolved_wc(th, 'wce_dvmp', Q2, 'DVMP')), np.abs(hm))
                 vals.update(F2=complex(f2), HxQ=complex(hx[0]), HxG=complex(hx[1]), TFF=complex(tf[0], tf[1]))
                 scl.update(F2=th.dis_charge * xi * s0[0], HxQ=s0[0], HxG=s0[1],
                            TFF=pre * math.hypot(np.dot(th.wg, a * np.abs(th.tgj)), np.dot(th.wg, a)))
@@ -321,11 +343,17 @@ def run(rep):
             for name in vals:
                 d = abs(vals[name] - ref[3][name])
                 allow = CREL * abs(ref[3][name]) + CS * max(scl[name], ref[4][name])
-                track('contour %s: deviation / tolerance' % name, sdiv(d, allow))
-                track('contour %s: relative deviation' % name, sdiv(d, abs(ref[3][name])))
+                # the non-diagonal (msbar NLO) evolution integral has its own fixed inner contour: see known_findings.json
+                nd = (p == 1 and scheme == 'msbar' and phi > 1.9 and name in ('H', 'E'))
+                if allow == 0 and d == 0:
+                    rep.hist('contour.identically zero', name)      # e.g. E with every E-parameter group switched off
+                    continue
+                # the margins of the region of the recorded finding are kept apart, so that the others can be read
+                label = 'contour %s' % name + (' (msbar NLO, phi>1.9: region of the known finding)' if nd else '')
+                track(label + ': deviation / tolerance', sdiv(d, allow))
+                if ref[3][name] != 0:
+                    track(label + ': relative deviation', d / abs(ref[3][name]))
                 if not d <= allow:
-                    # the non-diagonal (msbar NLO) evolution integral has its own fixed inner contour: see known_findings.json
-                    nd = (p == 1 and scheme == 'msbar' and phi > 1.9 and name in ('H', 'E'))
                     viol(('contour-nd/msbar-nlo/phi>1.9/%s' % name) if nd else 'contour/%s/p=%d/%s' % (name, p, scheme),
                          '%s changes with the Mellin-Barnes contour: %s at (phi=%.6g, c=%.4g) vs %s at the default (phi=1.57079632, '
                          'c=0.35): relative %.3g; ξ=%g t=%g Q2=%g p=%d %s' % (name, vals[name], phi, c, ref[3][name],
@@ -336,7 +364,14 @@ def run(rep):
     rep.coverage['worst_oracle_values'] = {k: float('%.3g' % v) for k, v in sorted(worst_o.items())}
 
     # ---------------------------------------------------------------- model vs code
-    out = common.run_driver(lines)
+    try:
+        out = common.run_driver(lines)
+    except common.ModelUnavailable as ex:
+        # the oracle streams above evaluated the property on the real code; what is lost is the correspondence
+        rep.coverage['model_unavailable'] = str(ex)[:500]
+        rep.violation('model-unavailable', 'the executable model of C05 could not be built (%s): the model-vs-code comparison did '
+                      'not run; the oracle streams did' % str(ex)[:300], dict(detail=str(ex)[:1000]), found_input=False)
+        out = []
     worst = {}
     for line, m, o in zip(lines, meta, out):
         if o == 'bad-op':
